@@ -375,6 +375,60 @@ def decoders(chk, repo, rule="R08.6"):
         chk.ob(rule, q, "map bytes are decoded by the map kind's decoder "
                "only", ok, c, why)
     chk.floor(rule, "functions that decode map bytes", found, 2)
+    encoders(chk, repo, rule)
+
+
+def encoders(chk, repo, rule="R08.6"):
+    """who may encode: values are put into an array or hash map from user
+    space in one place per map kind (ArrayGlobalVarDesc.__set__,
+    HashGlobalVarDesc.__set__; TheDict.__setitem__ stores raw structure
+    bytes) - where the fixed-point scale, the format and the layout are
+    applied.  Another function that writes map values itself is allowed
+    only as a helper of these; a second write route - start values entered
+    at creation, a bulk writer - has to go through them."""
+    allowed = {A + "ArrayGlobalVarDesc.__set__",
+               "ebpfcat.hashmap.HashGlobalVarDesc.__set__",
+               "ebpfcat.hashmap.TheDict.__setitem__"}
+    mods = [repo.module("ebpfcat.arraymap"), repo.module("ebpfcat.hashmap")]
+
+    def encodes(fn):
+        for c in walk_no_nested(fn):
+            if isinstance(c, ast.Call):
+                nm = (dotted(c.func) or "").split(".")[-1]
+                if nm in ("update_elem", "pack_into"):
+                    return c
+            if isinstance(c, ast.Assign) and any(
+                    isinstance(t, ast.Subscript) and isinstance(
+                        t.slice, ast.Slice) for t in c.targets) and any(
+                    isinstance(x, ast.Call) and (dotted(x.func) or "").split(
+                        ".")[-1] in ("pack", "to_bytes")
+                    for x in walk_no_nested(fn)):
+                return c
+        return None
+    found = 0
+    funcs = [(func_qual(repo, fn.body[0]), fn)
+             for fn in repo.all_functions(mods)]
+    for q, fn in funcs:
+        c = encodes(fn)
+        if c is None:
+            continue
+        found += 1
+        ok = q in allowed
+        why = "the encoder of its map kind"
+        if not ok:
+            name = q.split(".")[-1]
+            callers = [q2 for q2, f2 in funcs if f2 is not fn and any(
+                isinstance(x, ast.Call) and (dotted(x.func) or "").split(
+                    ".")[-1] == name for x in walk_no_nested(f2))]
+            ok = bool(callers) and all(q2 in allowed for q2 in callers)
+            why = (f"helper of {sorted(callers)}" if ok else
+                   f"`{unparse(c)[:60]}` writes map values on a route of "
+                   f"its own (called from {sorted(callers) or 'outside'}): "
+                   f"the fixed-point scale and the format rules established "
+                   f"for the encoder do not hold for it")
+        chk.ob(rule, q, "map values are encoded by the map kind's encoder "
+               "only", ok, c, why)
+    chk.floor(rule, "functions that encode map values", found, 3)
 
 
 def percpu(chk, repo):
